@@ -73,6 +73,10 @@ type scenario struct {
 	// that is cancelled right after the dial returned (the usual `defer cancel()`), "urlctx-timeout" = a context whose
 	// deadline (150 ms after the dial returned) passes while the connection is in use.
 	DialAPI string `json:"dial_api,omitempty"`
+	// LateReaderMS: the application's first Read comes this many ms after the connection was made (a busy moment),
+	// whatever the TNC has delivered by then - in particular more frames than the library's queue of 4096 holds: the
+	// library then makes the TNC wait (for up to a minute), it does not drop what was delivered.
+	LateReaderMS int `json:"late_reader_ms,omitempty"`
 	CutN    int    `json:"cut_n,omitempty"`
 }
 
@@ -94,7 +98,7 @@ var Check = &vrt.Check{
 		"BUFFER lines without a valid number are sent only while nothing is outstanding (the library reads them as 0)",
 		"in TCP mode ARQ data is sent only after Dial/Accept returned (on the serial line a third of the scenarios deliver 1-4 frames directly behind the CONNECTED report) and, in TCP mode, the connection is ended only after the reader received everything (the two sockets are not ordered " +
 			"relative to each other)",
-		"at most 1000 ARQ frames are outstanding while the reader is stalled (the library's queue holds 4096 frames and disconnects after a minute when it is full)",
+		"at most 1000 ARQ frames are outstanding while the reader is stalled for the duration of a script (the library's queue holds 4096 frames and disconnects after a minute when it is full); the backlog scenarios deliver 4300 frames to a reader that starts 400 ms late - well inside that minute",
 		"Write of more than 65535 bytes is shortened by design: the returned n is the contract, the remainder is written again by the scenario",
 		"malformed PTT lines (no / non-boolean parameter) may cause SetPTT(false) calls; well-formed PTT TRUE/FALSE lines must reach the controller exactly, in order",
 		"a stall (no observable progress for 10 s, 3 s once the in-memory line is drained) is a violation only when the same scenario stalls at the same point in three attempts; otherwise inconclusive",
@@ -120,7 +124,7 @@ var regressClasses = []string{
 	"write-sizes-serial", "write-sizes-tcp", "crcfault-1", "crcfault-2", "crcfault-3", "crcfault-each", "buffer-before-crcfault",
 	"flush-order-serial", "flush-order-tcp", "ptt-order", "close-disconnect-serial", "close-disconnect-tcp",
 	"remote-disconnect", "cut-mid-frame-serial", "cut-mid-frame-tcp", "garbage-serial", "garbage-tcp",
-	"burst-stalled-reader", "listen-serial", "listen-tcp", "offline-start", "empty-frames", "dial-greeting", "close-undrained-serial", "close-undrained-tcp", "dial-apis",
+	"burst-stalled-reader", "listen-serial", "listen-tcp", "offline-start", "empty-frames", "dial-greeting", "close-undrained-serial", "close-undrained-tcp", "dial-apis", "backlog-serial", "backlog-tcp",
 }
 
 func plan(seed int64, tier string) []vrt.Case {
